@@ -37,6 +37,14 @@ func pkgShort(fn *ssa.Function) string {
 // QualName is the stable name of a function in reports: <pkg>.<Func>.
 func QualName(fn *ssa.Function) string { return pkgShort(fn) + "." + FuncName(fn) }
 
+// Verify dispatches on the contract: closure families or plain functions.
+func (x *Exec) Verify(fn *ssa.Function) *FuncReport {
+	if sp := x.specFor(fn); sp != nil && len(sp.Of("closure")) > 0 {
+		return x.VerifyFamily(fn)
+	}
+	return x.VerifyFunc(fn)
+}
+
 // VerifyFunc generates every obligation of fn against its own contract.
 func (x *Exec) VerifyFunc(fn *ssa.Function) (rep *FuncReport) {
 	rep = &FuncReport{Func: QualName(fn)}
@@ -67,6 +75,7 @@ func (x *Exec) VerifyFunc(fn *ssa.Function) (rep *FuncReport) {
 	x.sig = ""
 	f := x.newFrame(fn, nil)
 	f.top = true
+	f.pathMode = len(sp.Of("closure")) > 0
 	st := x.newState()
 	var args []Value
 	for _, p := range fn.Params {
@@ -108,7 +117,7 @@ func (x *Exec) VerifyFunc(fn *ssa.Function) (rep *FuncReport) {
 			g := f.evalBool(c.Expr, r.st, entry)
 			x.oblige("on_exit", c.Text, fmt.Sprintf("%s:%d (return at %s)", shortFile(c.File), c.Line, r.where), r.st, g)
 		}
-		if !sp.Flags["opaque_effects"] {
+		if !sp.Flags["opaque_effects"] && len(sp.Of("closure")) == 0 {
 			x.frameCheck(f, sp, entry, r.st, r.where)
 		}
 	}
